@@ -116,7 +116,8 @@ def validate_trace(module, cfg, records, *, extra_env=None, timeout=3600, heap='
     of = os.path.join(d, 'verdicts.ndjson')
     with open(tf, 'w') as f:
         for r in records:
-            f.write(json.dumps(r, separators=(',', ':')))
+            f.write(json.dumps({k: v for k, v in r.items() if k not in ('case', 'key', 'fp')},
+                               separators=(',', ':')))
             f.write('\n')
     env = {'TRACE_FILE': tf, 'OUT_FILE': of}
     if extra_env:
